@@ -95,6 +95,15 @@ type exec struct {
 	uuidTerms   []*Term
 	uuidSubst   map[string]string
 	facts       map[int]bool // terms whose truth value the path condition fixes syntactically
+	gobBufs     map[*value][]iface
+	gobKeys     []gobKey
+	uuidByOrd   []value
+	lastNow     *Term
+	sleeps      int
+	parent      map[int]int      // union-find over variable ids
+	groups      map[int][]*Term  // path-condition terms per connected component
+	varCache    map[int][]int
+	fpUsed      bool
 	realStrings bool         // this path needs the real string theory (concatenation / ordering reached the solver)
 
 	cover map[*ssa.Function]int // per worker, cumulative
@@ -194,50 +203,129 @@ func (ex *exec) resetPath(prefix []int) {
 	ex.uuidTerms = nil
 	ex.uuidSubst = nil
 	ex.facts = map[int]bool{}
+	ex.parent = map[int]int{}
+	ex.groups = map[int][]*Term{}
+	ex.varCache = map[int][]int{}
+	ex.fpUsed = false
+	ex.gobBufs = nil
+	ex.gobKeys = nil
+	ex.uuidByOrd = nil
+	ex.lastNow = nil
+	ex.sleeps = 0
 	ex.solver.Reset()
 	ex.solver.SetEUFStrings(!ex.realStrings)
 }
 
-// assertPC adds c to the path condition.
+// assertPC adds c to the path condition. Nothing is sent to a solver: queries carry the relevant slice.
 func (ex *exec) assertPC(c *Term) {
 	if c.isConst() {
 		return
 	}
 	ex.pcTerms = append(ex.pcTerms, c)
 	ex.learn(c, true)
-	ex.solver.Assert(c)
+	vs := ex.varsOf(c)
+	if len(vs) == 0 {
+		return
+	}
+	root := ex.find(vs[0])
+	for _, v := range vs[1:] {
+		r := ex.find(v)
+		if r != root {
+			// merge the smaller group into the larger
+			if len(ex.groups[r]) > len(ex.groups[root]) {
+				r, root = root, r
+			}
+			ex.parent[r] = root
+			ex.groups[root] = append(ex.groups[root], ex.groups[r]...)
+			delete(ex.groups, r)
+		}
+	}
+	ex.groups[root] = append(ex.groups[root], c)
 }
 
-// check decides pc ∧ extra, routing FP-arithmetic queries to cvc5 when available.
+func (ex *exec) find(v int) int {
+	p, ok := ex.parent[v]
+	if !ok || p == v {
+		if !ok {
+			ex.parent[v] = v
+		}
+		return v
+	}
+	r := ex.find(p)
+	ex.parent[v] = r
+	return r
+}
+
+// varsOf returns the ids of the variables occurring in t (memoised per path).
+func (ex *exec) varsOf(t *Term) []int {
+	if vs, ok := ex.varCache[t.id]; ok {
+		return vs
+	}
+	var vs []int
+	switch t.op {
+	case "const":
+	case "var":
+		vs = []int{t.id}
+	default:
+		seen := map[int]bool{}
+		for _, a := range t.args {
+			for _, v := range ex.varsOf(a) {
+				if !seen[v] {
+					seen[v] = true
+					vs = append(vs, v)
+				}
+			}
+		}
+	}
+	ex.varCache[t.id] = vs
+	return vs
+}
+
+// slice returns the path-condition terms that share variables (transitively) with q.
+func (ex *exec) pcSlice(q *Term) []*Term {
+	var out []*Term
+	seen := map[int]bool{}
+	for _, v := range ex.varsOf(q) {
+		r := ex.find(v)
+		if !seen[r] {
+			seen[r] = true
+			out = append(out, ex.groups[r]...)
+		}
+	}
+	return out
+}
+
+// check decides pc && extra. Only the constraints that share variables with extra are sent (the rest of the
+// path condition is satisfiable on its own and independent); a model request, or extra == nil, sends all of it.
+// Queries containing FP arithmetic go to cvc5, everything else to z3.
 func (ex *exec) check(extra *Term, wantModel bool) (Result, map[string]interface{}) {
-	var ext []*Term
-	if extra != nil {
-		ext = []*Term{extra}
+	var asserts []*Term
+	if extra != nil && !wantModel {
+		asserts = append(ex.pcSlice(extra), extra)
+	} else {
+		asserts = append(asserts, ex.pcTerms...)
+		if extra != nil {
+			asserts = append(asserts, extra)
+		}
 	}
 	useFP := false
 	if ex.fp != nil {
 		seen := map[int]bool{}
-		if extra != nil && hasFPArith(extra, seen) {
-			useFP = true
-		}
-		for _, t := range ex.pcTerms {
-			if useFP {
-				break
-			}
+		for _, t := range asserts {
 			if hasFPArith(t, seen) {
 				useFP = true
+				break
 			}
 		}
 	}
 	if useFP {
-		// the FP back end is loaded with the path condition only when a query is routed to it
-		ex.fp.Reset()
-		for _, t := range ex.pcTerms {
-			ex.fp.Assert(t)
+		if !ex.fpUsed {
+			ex.fpUsed = true
+			ex.fp.Reset()
 		}
-		return ex.fp.Check(ext, ex.modelTerms(wantModel), wantModel)
+		return ex.fp.Check(asserts, ex.modelTerms(wantModel), wantModel)
 	}
-	return ex.solver.Check(ext, ex.modelTerms(wantModel), wantModel)
+	return ex.solver.Check(asserts, ex.modelTerms(wantModel), wantModel)
 }
 
 // decide makes an n-way decision; opts[i] is the condition under which option i applies (exhaustive).
